@@ -240,20 +240,35 @@ def _run(case, cfg, w):
 
 
 def check_then_mark_pattern(acc, sid, ns):
-    """Did two threads both get `is_connected(sid) -> True` (directly or via
-    can_disconnect)?  Each of them then marks and runs the handler: that is
-    the known non-atomic check-then-mark window."""
+    """The known window: two threads both got `is_connected(sid) -> True`
+    (directly or via can_disconnect), and for each of them the very next
+    manager / engine.io access after that check is `pre_disconnect(sid)` -
+    i.e. the check is immediately followed by the mark, as in the shipped
+    code, and the second thread slipped in between.  If a thread does
+    anything else between its check and its mark (a send, another lookup) the
+    window is a different, wider one and is not the known finding."""
     if sid is None:
         return 'other'
-    seen_true = set()
-    for e in acc:
+    ok_threads = set()
+    for i, e in enumerate(acc):
         if e['kind'] == 'acc_ret' and e['m'] in ('is_connected',
                                                  'can_disconnect') \
                 and e['a'][:1] == (sid,) and e['r']:
-            seen_true.add(e['tid'])
-            if len(seen_true) >= 2:
-                return 'check_then_mark_window'
-    return 'other'
+            tid = e['tid']
+            nxt = None
+            for f in acc[i + 1:]:
+                if f['kind'] == 'acc' and f['tid'] == tid:
+                    if f['m'] in ('is_connected',) and e['m'] == \
+                            'can_disconnect':
+                        continue      # can_disconnect calls is_connected
+                    nxt = f
+                    break
+            if nxt is not None and nxt['m'] == 'pre_disconnect' and \
+                    nxt['a'][:1] == (sid,):
+                ok_threads.add(tid)
+            elif nxt is not None:
+                return 'other'
+    return 'check_then_mark_window' if len(ok_threads) >= 2 else 'other'
 
 
 def any_check_then_mark(acc, sids):
